@@ -15,11 +15,15 @@ with tempfile.TemporaryDirectory() as d:
                         '--continue-on-collection-errors', f'--junitxml={xml}'] + extra,
                        cwd=repo, env=env, capture_output=True, text=True)
     passed = set()
+    ran = set()
     for tc in ET.parse(xml).getroot().iter('testcase'):
+        ran.add(f"{tc.get('classname')}::{tc.get('name')}")
         if not any(ch.tag in ('failure', 'error', 'skipped') for ch in tc):
             passed.add(f"{tc.get('classname')}::{tc.get('name')}")
+if extra:
+    want &= ran
 missing = sorted(want - passed)
 print(f'baseline stable_pass={len(want)} passed_now={len(passed)} missing={len(missing)} extra_passing={len(passed - want)}')
 for m in missing[:30]:
     print('  MISSING', m)
-sys.exit(1 if missing and not extra else 0)
+sys.exit(1 if missing else 0)
